@@ -278,10 +278,10 @@ def gen_cxx(md, policy=0, introspect=False, frontend="functor"):
     for e in evs:
         p = md["parents"][e]
         if p is None:
-            w("struct Ev%d : H::EvB { Ev%d(int p = 0, int t = %d) : H::EvB{t, p} {} template <class O, class = std::enable_if_t<std::is_base_of_v<H::EvB, O> && !std::is_base_of_v<Ev%d, O>>> Ev%d(O const& o) : H::EvB{%d, o.pay} {} };" % (e, e, e, e, e, e))
+            w("struct Ev%d : H::EvB { Ev%d(int p = 0, int t = %d) : H::EvB{t, p} {} template <class O, class = std::enable_if_t<std::is_base_of_v<H::EvB, O> && !std::is_same_v<Ev%d, O>>> Ev%d(O const& o) : H::EvB{%d, o.pay} {} };" % (e, e, e, e, e, e))
         else:
-            # a derived event type converts from every other event type too (exit pseudo states convert the event they are entered with)
-            w("struct Ev%d : Ev%d { Ev%d(int p = 0, int t = %d) : Ev%d(p, t) {} template <class O, class = std::enable_if_t<std::is_base_of_v<H::EvB, O> && !std::is_base_of_v<Ev%d, O>>> Ev%d(O const& o) : Ev%d(o.pay, %d) {} };" % (e, p, e, e, p, e, e, p, e))
+            # every event type converts from every other one, a derived one included (no slicing: the converted object carries its own type id; exit pseudo states convert the event they are entered with)
+            w("struct Ev%d : Ev%d { Ev%d(int p = 0, int t = %d) : Ev%d(p, t) {} template <class O, class = std::enable_if_t<std::is_base_of_v<H::EvB, O> && !std::is_same_v<Ev%d, O>>> Ev%d(O const& o) : Ev%d(o.pay, %d) {} };" % (e, p, e, e, p, e, e, p, e))
     w("#define H_EVENTS(X) " + " ".join("X(%d)" % e for e in evs))
     w("#include \"prelude2.hpp\"")
     flags = sorted({f for _, m in walk(md["root"]) for st in m["states"] for f in st["flags"]})
